@@ -280,7 +280,7 @@ fn brace_group() -> ast::Command { ast::Command::Compound(ast::CompoundCommand::
 #[kani::stub(std::time::SystemTime::now, crate::vk_prelude::stub_now)]
 fn vk_c11_pipestatus_of_a_grouping_command() {
     let mut shell: Sh = Shell::default();
-    shell.last_pipeline_statuses_mut().push(3); shell.last_pipeline_statuses_mut().push(4);
+    shell.last_pipeline_statuses_mut().clear(); shell.last_pipeline_statuses_mut().push(3); shell.last_pipeline_statuses_mut().push(4);
     let params = ExecutionParameters::default();
     let grouping: bool = kani::any();
     let mut seq = Vec::with_capacity(1);
